@@ -268,7 +268,11 @@ static void float_one(double v, int p, const char *cls)
 		for (char ch : txt) if (isdigit((unsigned char)ch)) { if (ch != '0') lead = false; if (!lead) ++sig; }
 		if (!adj) {
 			char wd[64]; snprintf(wd, sizeof wd, "%.17g", w);
-			R.viol(std::string("oracle:atof-inexact|") + (sig > 15 ? "more-than-15-significant-digits" : "at-most-15-significant-digits"), where + " parsed=" + wd);
+			// error class: a few units in the last place of the double (the algorithm's own rounding) or grossly wrong
+			const long double ulp = (long double)(nextafter(fabs(nearest), INFINITY) - fabs(nearest));
+			const bool small = ulp > 0 && fabsl((long double)w - tv) <= 4 * ulp;
+			R.viol(std::string("oracle:atof-inexact|") + (sig > 15 ? "more-than-15-significant-digits" : sig == 15 ? "exactly-15-significant-digits" : "at-most-14-significant-digits")
+				+ (small ? "|within-4-ulp" : "|beyond-4-ulp"), where + " parsed=" + wd);
 		} else R.stat("atof_adjacent_only");
 	}
 }
